@@ -422,13 +422,16 @@ def mapspec_dimensions(mapspecs: list[MapSpec]) -> dict[str, int]:
 
 
 def mapspec_axes(mapspecs: list[MapSpec]) -> dict[str, tuple[str, ...]]:
-    """Return the axes for each array parameter in the pipeline."""
+    """Return the axes for each array parameter in the pipeline.
+
+    An axis that is only ever referenced by ``:`` has no name and is ``None``.
+    """
     axes: dict[str, dict[int, str]] = defaultdict(dict)
     for mapspec in mapspecs:
         for arrayspec in itertools.chain(mapspec.inputs, mapspec.outputs):
             for i, axis in enumerate(arrayspec.axes):
-                if axis is not None:
-                    axes[arrayspec.name][i] = axis
+                if axis is not None or i not in axes[arrayspec.name]:
+                    axes[arrayspec.name][i] = axis  # type: ignore[assignment]
     return {name: tuple(dct[i] for i in range(len(dct))) for name, dct in axes.items()}
 
 
